@@ -523,15 +523,28 @@ static void check_tones(Ctx& ctx, bool T) {
 // ------------------------------------------------------------------------------------------------ coherence
 static void check_coherence(Ctx& ctx, bool T) {
     const std::vector<int> nffts = {8, 16, 32, 64, 256, 1024, 4096};
-    static const char* YN[6] = {"x*-3", "x*1e-3", "x*1", "x*1e3", "filtered", "independent"};
-    const double AS[4] = {-3, 1e-3, 1, 1e3};
+    // second-signal letters.  Scaled copies (kind 0): first signal = sx * letter, second = sy * letter; the statement puts no
+    // restriction on the scale, so the scales span 1e-15 .. 1e15 (no overflow / underflow: powers stay within 1e-32 .. 1e32).
+    struct YL {
+        const char* name;
+        double sx, sy;
+        int kind;   // 0 scaled copy, 1 filtered copy, 2 independent letter
+    };
+    static const YL YS[] = {
+      {"x*-3", 1, -3, 0},      {"x*1e-3", 1, 1e-3, 0},       {"x*1", 1, 1, 0},         {"x*1e3", 1, 1e3, 0},
+      {"filtered", 1, 1, 1},   {"independent", 1, 1, 2},     {"x*1e-15", 1, 1e-15, 0}, {"x*-1e-13", 1, -1e-13, 0},
+      {"x*1e-10", 1, 1e-10, 0}, {"x*1e10", 1, 1e10, 0},      {"x*1e13", 1, 1e13, 0},   {"x*-1e15", 1, -1e15, 0},
+      {"1e-8x,1e8x", 1e-8, 1e8, 0},
+    };
+    const int NY = (int)(sizeof(YS) / sizeof(YS[0]));
     for (int nfft : nffts) {
         for (const Cfg& c : seg_grid(nfft, T ? 32 : 16)) {
             const int st = c.wl - c.nov;
             for (int wk = 0; wk < 4; ++wk) {
                 const std::vector<double> w = own_window(wk, c.wl);
                 if (!usable(w)) continue;
-                for (int yk = 0; yk < 6; ++yk) {
+                for (int yk = 0; yk < NY; ++yk) {
+                    const YL& yl = YS[yk];
                     // form 0: (x,y,win,nov,nfft); 1: (x,y,winlen,nov,nfft) [hamming]; 2: (x,y,win); 3: (x,y,winlen)
                     for (int form = 0; form < 4; ++form) {
                         if ((form == 1 || form == 3) && wk != WK_HAMM) continue;
@@ -539,20 +552,21 @@ static void check_coherence(Ctx& ctx, bool T) {
                         while (p2 < c.wl) p2 *= 2;
                         if (form >= 2 && (c.nov != c.wl / 2 || nfft != p2)) continue;
                         const int N = c.wl + 3 * st + (st - 1);
-                        P p = P().kv("nfft", nfft).kv("win", WKN[wk]).kv("winlen", c.wl).kv("nov", c.nov).kv("y", YN[yk]).kv("form", form);
-                        if (!ctx.take(yk < 4 ? "mscohere.scaled_copy" : "mscohere.range", p)) continue;
-                        const Sig x = dense(false, N, 31);
+                        P p = P().kv("nfft", nfft).kv("win", WKN[wk]).kv("winlen", c.wl).kv("nov", c.nov).kv("y", yl.name).kv("form", form);
+                        if (!ctx.take(yl.kind == 0 ? "mscohere.scaled_copy" : "mscohere.range", p)) continue;
+                        const Sig base = dense(false, N, 31);
+                        const Sig x = yl.sx == 1 ? base : scaled(base, yl.sx);
                         Sig y = x;
-                        if (yk < 4) {
-                            y = scaled(x, AS[yk]);
-                        } else if (yk == 4) {
+                        if (yl.kind == 0) {
+                            y = scaled(base, yl.sy);
+                        } else if (yl.kind == 1) {
                             for (int i = 0; i < N; ++i)
                                 y.re[(size_t)i] = x.re[(size_t)i] + (i >= 1 ? 0.5 * x.re[(size_t)i - 1] : 0) - (i >= 2 ? 0.25 * x.re[(size_t)i - 2] : 0);
                         } else {
                             y = dense(false, N, 37);
                         }
                         ctx.nontrivial();
-                        ctx.note(fmt("mscohere form %d %s", form, yk < 4 ? "scaled" : YN[yk]));
+                        ctx.note(fmt("mscohere form %d %s", form, yl.kind == 0 ? (std::fabs(std::log10(std::fabs(yl.sy / yl.sx))) > 6 ? "scaled, ratio beyond 1e+-6" : "scaled") : yl.name));
                         std::vector<double> coh;
                         try {
                             const arr_real ax = x.real_arr(), ay = y.real_arr();
@@ -576,10 +590,11 @@ static void check_coherence(Ctx& ctx, bool T) {
                                 break;
                             }
                             ctx.worst("coherence excess over 1", v - 1);
-                            if (yk < 4) {
+                            if (yl.kind == 0) {
                                 ctx.worst("scaled copy |coh-1|", std::fabs(v - 1));
+                                if (std::fabs(std::log10(std::fabs(yl.sy / yl.sx))) > 6) ctx.worst("scaled copy |coh-1|, scale ratio beyond 1e+-6", std::fabs(v - 1));
                                 if (!(std::fabs(v - 1) <= 1e-9)) {
-                                    ctx.fail("mscohere", fmt("coh[%d]=%.17g for y = %s", k, v, YN[yk]), "1 within 1e-9", P().kv("aspect", "one").kv("k", k));
+                                    ctx.fail("mscohere", fmt("coh[%d]=%.17g for y = %s", k, v, yl.name), "1 within 1e-9", P().kv("aspect", "one").kv("k", k));
                                     break;
                                 }
                             }
